@@ -298,7 +298,8 @@ def validator_inputs(rng, lang, n=None):
     out = []
     for cnt in ([n] if n else [12, 24, rng.choice([15, 18, 21])]):
         el = cnt // 3 * 4
-        z = indices_of_entropy(bytes(2) + rng.randbytes(el - 2))       # entropy starts with zero bytes
+        zl = rng.choice((2, 4, 5, 8, el - 1))
+        z = indices_of_entropy(bytes(zl) + rng.randbytes(el - zl))     # entropy starts with zero bytes (2 .. all but one)
         nz = indices_of_entropy(bytes([0xFF]) + rng.randbytes(el - 1))  # entropy starts with a non-zero byte
         out.append(("valid-zero-lead-%d" % cnt, sentence(lang, z, b" ")))
         out.append(("valid-nonzero-lead-%d" % cnt, sentence(lang, nz, b" ")))
@@ -531,3 +532,13 @@ def unordered_mark_pairs():
                 a, b = (chr(h) + chr(l), chr(l) + chr(h)) if cl < ch else (chr(l) + chr(h), chr(h) + chr(l))
                 out.append(((base + a + "z").encode(), (base + b + "z").encode()))
     return out
+
+
+_base_pool = nfc_like_pool
+
+
+def nfc_like_pool():
+    """... plus capitals and other cased letters whose compatibility / precomposed spelling has a different case mapping
+    (a case fold applied before or after normalisation gives different results on them)"""
+    return _base_pool() + ["ℋ", "H", "㎒", "MHz", "İ", "İ", "Ⅻ", "XII", "Ǆ", "DŽ", "ǅ",
+                           "Ａｂ", "Ⓐ", "ẞ", "ϒ", "ϓ", "ﬅ", "K", "Å", "ẛ"]
